@@ -527,6 +527,34 @@ def _bisect_crash(corr, scripts):
     return cur[0] if cur else []
 
 
+_FUZZ_CACHE = []
+
+
+def load_fuzz_corpus(ctx, n_quick, salt=0):
+    """corpus/fuzz/conn.jsonl: scripts distilled offline from a coverage-guided search (tools/fuzz_distill.py; one JSON array per line).
+    Deterministic input to the checks: the thorough tier replays all of them, the quick tier a seed-dependent sample of n_quick."""
+    if not _FUZZ_CACHE:
+        p = os.path.join(CORPUS, "fuzz", "conn.jsonl")
+        scs = []
+        if os.path.exists(p):
+            for l in open(p):
+                l = l.strip()
+                if l:
+                    try:
+                        j = json.loads(l)
+                        if isinstance(j, list) and j:
+                            scs.append(j)
+                    except Exception:
+                        pass
+        _FUZZ_CACHE.append(scs)
+    scs = _FUZZ_CACHE[0]
+    if ctx.tier != "quick" or len(scs) <= n_quick:
+        return [list(s) for s in scs]
+    import random as _r
+    rr = _r.Random("%s/%s" % (ctx.seed if hasattr(ctx, "seed") else 0, salt))
+    return [list(s) for s in rr.sample(scs, n_quick)]
+
+
 def load_corpus(prop):
     """minimised past disagreements / violations: corpus/<prop>/*.json each {"script": [...]}; run first"""
     out = []
